@@ -148,6 +148,11 @@ ARG_OPS = [
     ("incoherent(DM, ref Quantity)", catalogue.is_radio, lambda z: (catalogue._dm_for(z, 3.1), z.channel_freqs[0]),
      lambda z, dm, ref: pb.incoherent_dedispersion(z, dm, ref_freq=ref)),
     ("concatenate(list of pieces)", lambda z: True, lambda z: ([z[:5], z[5:7], z[7:]],), lambda z, ps: pb.concatenate(ps)),
+    # the axis given as a 0-d integer array (a spelling numpy.concatenate accepts), negative and positive
+    ("concatenate(axis as 0-d array, negative)", lambda z: True, lambda z: ([z[:5], z[5:]], np.array(-z.ndim)),
+     lambda z, ps, ax: pb.concatenate(ps, axis=ax)),
+    ("concatenate(axis as 0-d array, last axis)", lambda z: z.ndim >= 3, lambda z: ([z, z], np.array(-1)),
+     lambda z, ps, ax: pb.concatenate(ps, axis=ax)),
     ("concatenate(pieces with different meta)", lambda z: True,
      lambda z: ([type(z).like(z[:5], meta={"a": 1, "shared": [1]}), type(z).like(z[5:7], meta={"b": [2], "shared": [9]}),
                  type(z).like(z[7:], meta=None)],), lambda z, ps: pb.concatenate(ps)),
